@@ -843,3 +843,111 @@ var PhS = []*func(int) int{&phS0, &phS1, &phS2, &phS3, &phS4, &phS5, &phS6, &phS
 
 func SteadyOrig(k, a int) int { return a*(k+2) + k }
 func HotOrig(k, a int) int    { return a ^ (0x4000 + k) }
+
+// R0: frameless function whose loop head lies inside its first 13 bytes: goom must refuse an origin trampoline for it.
+//
+//go:noinline
+func R0(n int) int {
+	x := 7000
+	for i := 0; i < n; i++ {
+		x = x*3 + 1
+		x ^= x >> 3
+	}
+	return x
+}
+
+var phR0 = func(a int) int {
+	x := a
+	for i := 0; i < len(sink); i++ {
+		x = x*31 + i
+		sink[i&7] += x
+		if x&1 == 0 {
+			x ^= sink[(i+1)&7]
+		} else {
+			x += sink[(i+3)&7] * 7
+		}
+		sink[(i+5)&7] -= x >> 3
+		if x%7 == 3 {
+			x = x*x + sink[(i+2)&7]
+		}
+		sink[(i+6)&7] ^= x << 2
+		x += sink[(i+4)&7]*13 - sink[(i+7)&7]*17
+	}
+	return x
+}
+
+// R1: frameless function whose loop head lies inside its first 13 bytes: goom must refuse an origin trampoline for it.
+//
+//go:noinline
+func R1(n int) int {
+	x := 7001
+	for i := 0; i < n; i++ {
+		x = x*3 + 1
+		x ^= x >> 3
+	}
+	return x
+}
+
+var phR1 = func(a int) int {
+	x := a
+	for i := 0; i < len(sink); i++ {
+		x = x*31 + i
+		sink[i&7] += x
+		if x&1 == 0 {
+			x ^= sink[(i+1)&7]
+		} else {
+			x += sink[(i+3)&7] * 7
+		}
+		sink[(i+5)&7] -= x >> 3
+		if x%7 == 3 {
+			x = x*x + sink[(i+2)&7]
+		}
+		sink[(i+6)&7] ^= x << 2
+		x += sink[(i+4)&7]*13 - sink[(i+7)&7]*17
+	}
+	return x
+}
+
+// R2: frameless function whose loop head lies inside its first 13 bytes: goom must refuse an origin trampoline for it.
+//
+//go:noinline
+func R2(n int) int {
+	x := 7002
+	for i := 0; i < n; i++ {
+		x = x*3 + 1
+		x ^= x >> 3
+	}
+	return x
+}
+
+var phR2 = func(a int) int {
+	x := a
+	for i := 0; i < len(sink); i++ {
+		x = x*31 + i
+		sink[i&7] += x
+		if x&1 == 0 {
+			x ^= sink[(i+1)&7]
+		} else {
+			x += sink[(i+3)&7] * 7
+		}
+		sink[(i+5)&7] -= x >> 3
+		if x%7 == 3 {
+			x = x*x + sink[(i+2)&7]
+		}
+		sink[(i+6)&7] ^= x << 2
+		x += sink[(i+4)&7]*13 - sink[(i+7)&7]*17
+	}
+	return x
+}
+
+var Rej = []func(int) int{R0, R1, R2}
+var PhR = []*func(int) int{&phR0, &phR1, &phR2}
+
+func RejOrig(k, n int) int {
+	x := 7000 + k
+	for i := 0; i < n; i++ {
+		x = x*3 + 1
+		x ^= x >> 3
+	}
+	return x
+}
